@@ -26,7 +26,9 @@ vars == <<scn, pc, outf, exit>>
 
 Spellings == {"abs", "rel", "dotrel", "bare"}
 Outs == {"default", "explicit_same", "explicit_other"}
-Pres == {"absent", "shorter", "longer"}
+\* what the output path holds before the run: nothing, unrelated shorter / longer text, an empty file, the beginning of
+\* what is about to be written, or that text followed by more (the last three look "almost up to date")
+Pres == {"absent", "shorter", "longer", "empty", "prefix_of_new", "new_plus_tail"}
 Fails == {"none", "missing_input", "bad_xml", "unresolved_import", "unsupported_binding", "reachable_unreadable", "out_dir_missing"}
 \* how the files of the input directory are stored: all regular files, the imported sibling a symbolic link to a regular
 \* file kept elsewhere, or the input itself such a link.  The CONTENTS of the directory are the same in all three, so
@@ -35,7 +37,8 @@ Fails == {"none", "missing_input", "bad_xml", "unresolved_import", "unsupported_
 \* bare name, whatever the spelling on the command line)
 Sibs == {"regular", "symlink_sibling", "symlink_input", "import_cycle"}
 Scenarios == {s \in [spelling : Spellings, out : Outs, pre : Pres, fail : Fails, sib : Sibs] :
-                s.sib # "regular" => (s.fail \in {"none", "unresolved_import", "bad_xml"} /\ s.pre # "shorter")}
+                /\ (s.sib # "regular" => (s.fail \in {"none", "unresolved_import", "bad_xml"} /\ s.pre \in {"absent", "longer"}))
+                /\ (s.pre \in {"empty", "prefix_of_new", "new_plus_tail"} => (s.fail \in {"none", "bad_xml"} /\ s.spelling \in {"abs", "bare"}))}
 
 \* which stage a failure class strikes
 FailStage(f) == CASE f = "missing_input" -> "locate"
